@@ -198,6 +198,60 @@ type c01Target struct {
 	q          *Queue
 	holdBefore map[int]int
 	holds      int
+
+	// F=: statuses a per-recipient target files under addresses outside the envelope, per attempt
+	foreign map[int][]c01Foreign
+}
+
+// c01Foreign: kind x = an unrelated address, c = the converted (other) spelling of an accepted
+// recipient's mailbox, k = its other-case form; cls = class of the failure filed under it.
+type c01Foreign struct{ kind, cls byte }
+
+// c01Headers: the header of the queued message (H=<k>); the property does not depend on it.
+// Mirrored by Driver/C01.lean headerTable.
+var c01Headers = [][][2]string{
+	{{"Subject", "verif"}},
+	{{"Subject", "verif"}, {"Auto-Submitted", "auto-generated"}},
+	{{"Subject", "verif"}, {"Auto-Submitted", "auto-replied"}},
+	{{"Subject", "verif"}, {"Auto-Submitted", "auto-notified; owner-email=\"o@example.org\""}},
+	{{"Subject", "verif"}, {"Auto-Submitted", "no"}},
+	{{"Subject", "verif"}, {"Precedence", "bulk"}},
+	{{"Subject", "verif"}, {"Precedence", "list"}, {"List-Id", "<l.example.org>"}, {"List-Unsubscribe", "<mailto:u@example.org>"}},
+	{{"Subject", "verif"}, {"Return-Path", "<>"}, {"X-Loop", "mx.example.org"}},
+	{{"Subject", "verif"}, {"Content-Type", "multipart/report; report-type=delivery-status; boundary=b"}},
+	{{"Subject", "verif"}, {"Content-Type", "text/plain; charset=utf-8"}, {"X-Auto-Response-Suppress", "All"}},
+	{},
+	{{"Subject", "verif"}, {"AUTO-SUBMITTED", "Auto-Generated"}, {"Precedence", "junk"}, {"From", "MAILER-DAEMON@example.org"}},
+}
+
+func c01Header(k int) textproto.Header {
+	h := textproto.Header{}
+	fs := c01Headers[k]
+	for i := len(fs) - 1; i >= 0; i-- {
+		h.Add(fs[i][0], fs[i][1])
+	}
+	return h
+}
+
+// foreignAddr: an address that is NOT in the envelope, of the wanted kind, for accepted recipient id.
+func (t *c01Target) foreignAddr(kind byte, id, n int) string {
+	var cands []string
+	switch kind {
+	case 'c':
+		for v := 0; v < 4; v++ {
+			cands = append(cands, c01AddrForms[(id-1)%6][v])
+		}
+	case 'k':
+		a := c01Addr(id)
+		cands = append(cands, strings.ToUpper(a), strings.ToLower(a))
+	}
+	cands = append(cands, fmt.Sprintf("stale%d@elsewhere.example", n))
+	for _, c := range cands {
+		if _, in := t.addrIdx[c]; !in {
+			return c
+		}
+	}
+	panic("C01 run: no foreign address")
 }
 
 type c01Delivery struct {
@@ -369,10 +423,12 @@ type c01Ext struct {
 	sender   byte
 	orig     string
 	forms    string
+	header   int
+	foreign  map[int][]c01Foreign
 }
 
 func c01ParseExt(toks []string, rcpts []int) c01Ext {
-	e := c01Ext{faults: map[int]string{}, restarts: map[int]int{}, utf8: true, sender: 'a', orig: strings.Repeat("-", len(rcpts))}
+	e := c01Ext{faults: map[int]string{}, restarts: map[int]int{}, utf8: true, sender: 'a', orig: strings.Repeat("-", len(rcpts)), foreign: map[int][]c01Foreign{}}
 	for _, tok := range toks {
 		switch {
 		case tok == "R=-":
@@ -405,6 +461,23 @@ func c01ParseExt(toks []string, rcpts []int) c01Ext {
 				if _, ok := c01EnhOf(e.forms[i+1], 550); !ok || !strings.ContainsRune(c01Shapes, rune(e.forms[i])) {
 					panic("C01 run: " + tok)
 				}
+			}
+		case strings.HasPrefix(tok, "H=") && len(tok) > 2:
+			k, err := strconv.Atoi(tok[2:])
+			if err != nil || k < 0 || k >= len(c01Headers) {
+				panic("C01 run: " + tok)
+			}
+			e.header = k
+		case strings.HasPrefix(tok, "F=") && len(tok) > 2:
+			for _, f := range strings.Split(tok[2:], ".") {
+				if len(f) < 3 || !strings.Contains("tpu", f[len(f)-1:]) || !strings.Contains("xck", f[len(f)-2:len(f)-1]) {
+					panic("C01 run: " + tok)
+				}
+				k, err := strconv.Atoi(f[:len(f)-2])
+				if err != nil || k < 0 {
+					panic("C01 run: " + tok)
+				}
+				e.foreign[k] = append(e.foreign[k], c01Foreign{f[len(f)-2], f[len(f)-1]})
 			}
 		default:
 			panic("C01 run: " + tok)
@@ -538,6 +611,13 @@ func (d *c01DeliveryPartial) BodyNonAtomic(ctx context.Context, sc module.Status
 		}
 	}
 	d.t.ev("bodyNA:" + strings.Join(parts, ","))
+	// statuses under addresses that are not in the envelope (a stale or converted form): they name nobody
+	for n, f := range d.t.foreign[d.att] {
+		if len(d.accepted) == 0 {
+			break
+		}
+		sc.SetStatus(d.t.foreignAddr(f.kind, d.accepted[n%len(d.accepted)], n), c01Err(d.t.rng, f.cls, "foreign-status"))
+	}
 }
 
 func (d *c01Delivery) Abort(ctx context.Context) error {
@@ -627,6 +707,9 @@ func c01ParsePlans(s string, rcpts []int) []c01Plan {
 		f := strings.Split(ps, "/")
 		p := c01Plan{start: f[0][0], body: f[2][0], commit: f[4][0], rcpt: map[int]byte{}, bodyRc: map[int]byte{}}
 		for i, r := range rcpts {
+			if _, listed := p.rcpt[r]; listed {
+				continue // an address listed twice: one mailbox, one answer
+			}
 			p.rcpt[r] = f[1][i]
 			p.bodyRc[r] = f[3][i]
 		}
@@ -702,16 +785,21 @@ func c01Run(out *vh.Out, op string, seed uint64) {
 	tgt := &c01Target{partial: partial, plans: plans, addrIdx: map[string]int{}, log: &evlog, rng: rng, holdBefore: holdBefore, forms: ext.forms, pos: map[int]int{}}
 	var addrs []string
 	addrOf := map[int]string{}
+	repeated := false
+	var distinct []int
 	for j, r := range rcpts {
-		tgt.pos[r] = j
 		a := c01Addr(r)
+		addrs = append(addrs, a) // an address may be listed twice (identical spelling): the client repeated RCPT TO
 		if _, dup := tgt.addrIdx[a]; dup {
-			panic("C01 run: recipient twice in " + op)
+			repeated = true
+			continue
 		}
+		tgt.pos[r] = j
 		tgt.addrIdx[a] = r
-		addrs = append(addrs, a)
 		addrOf[r] = a
+		distinct = append(distinct, r)
 	}
+	tgt.foreign = ext.foreign
 	origRcpts := c01OriginalRcpts(tgt, rcpts, addrOf, ext.utf8, ext.orig)
 
 	dir, err := os.MkdirTemp("", "verif-c01-")
@@ -808,8 +896,7 @@ func c01Run(out *vh.Out, op string, seed uint64) {
 			panic(err)
 		}
 	}
-	hdr := textproto.Header{}
-	hdr.Add("Subject", "verif")
+	hdr := c01Header(ext.header)
 	if err := d.Body(ctx, hdr, buffer.MemoryBuffer{Slice: []byte("hello\r\n")}); err != nil {
 		panic(err)
 	}
@@ -946,21 +1033,41 @@ func c01Run(out *vh.Out, op string, seed uint64) {
 		case strings.HasPrefix(e, "start:"):
 			attempts++
 		case strings.HasPrefix(e, "committed:"):
+			// one committed transaction = one delivery to each address in it, however often it was listed
+			inTx := map[string]bool{}
 			for _, r := range strings.Split(e[len("committed:"):], ",") {
-				if r != "" {
+				if r != "" && !inTx[r] {
+					inTx[r] = true
 					commits[r]++
 				}
 			}
 		case strings.HasPrefix(e, "report:"):
+			inRep := map[string]bool{}
 			for _, r := range strings.Split(e[len("report:"):], ",") {
-				if r != "" {
+				if r != "" && !inRep[r] {
+					inRep[r] = true
 					reports[r]++
 				}
 			}
 		}
 	}
 	_ = lastTried
-	for _, r := range rcpts {
+	// the downstream is asked to commit only when the body stage left somebody without an error
+	bodyAllFailed := false
+	for _, e := range trace {
+		switch {
+		case strings.HasPrefix(e, "start:"):
+			bodyAllFailed = false
+		case strings.HasPrefix(e, "body:"):
+			bodyAllFailed = e[len("body:")] != 'o'
+		case strings.HasPrefix(e, "bodyNA:"):
+			bodyAllFailed = len(e) > len("bodyNA:") && !strings.Contains(e, "=o")
+		case strings.HasPrefix(e, "commit:") && bodyAllFailed:
+			out.Violation("C01/committed-after-failed-body", op, "every accepted recipient failed at the body stage, Commit was called all the same; trace: "+strings.Join(trace, " "))
+			bodyAllFailed = false
+		}
+	}
+	for _, r := range distinct {
 		k := strconv.Itoa(r)
 		c, rp := commits[k], reports[k]
 		okOutcome := (c == 1 && rp == 0) || (c == 0 && rp == 1 && dsn) || (c == 0 && rp == 0 && !dsn)
@@ -1020,6 +1127,31 @@ func c01Run(out *vh.Out, op string, seed uint64) {
 	}
 	out.Stat("kind." + toks[3])
 	out.StatN("rcpts", len(rcpts))
+	if repeated {
+		out.Stat("run.repeated-address.kind-" + toks[3])
+		for _, e := range trace {
+			if e == "abort" {
+				out.Stat("run.repeated-address.abort")
+				break
+			}
+		}
+	}
+	if ext.header != 0 {
+		out.Stat(fmt.Sprintf("run.header.%d", ext.header))
+		for _, n := range reports {
+			if n > 0 {
+				out.Stat(fmt.Sprintf("run.header.%d.reported", ext.header))
+				break
+			}
+		}
+	}
+	for k, fs := range ext.foreign {
+		if k < attempts && partial {
+			for _, f := range fs {
+				out.Stat("run.foreign-status.kind-" + string(f.kind))
+			}
+		}
+	}
 	if c01HasSpellings(addrOf) {
 		out.Stat("run.spellings")
 	}
@@ -1402,8 +1534,134 @@ func TestVerifC01(t *testing.T) {
 		}
 		kind := r.Pick("a", "p")
 		dsn := "1"
-		if r.Chance(15) && mode != 6 && mode != 1 {
+		if r.Chance(15) && mode != 6 && mode != 1 && mode != 4 {
 			dsn = "0"
+		}
+		// every 8th case (mode 2): an address is listed twice (three times) in the envelope, identical
+		// spelling, most often FOLLOWED by other recipients; everybody is accepted in the first attempt
+		// and then all / some / the others fail at the body stage (sub-mode), for both target kinds
+		dupMode := mode == 2
+		if dupMode {
+			nb := 1 + r.Intn(3)
+			base := []int{}
+			for _, b := range perm[:nb] {
+				base = append(base, b+6*r.Intn(4))
+			}
+			rc = append([]int{}, base...)
+			copies := 1
+			if r.Chance(15) {
+				copies = 2
+			}
+			for c := 0; c < copies; c++ {
+				// after the first occurrence of base[0] (position 0), before the others in most cases
+				at := 1 + c
+				if r.Chance(30) {
+					at = 1 + r.Intn(len(rc))
+				}
+				rc = append(rc[:at], append([]int{base[0]}, rc[at:]...)...)
+			}
+			nr = len(rc)
+			rs = nil
+			for _, x := range rc {
+				rs = append(rs, strconv.Itoa(x))
+			}
+			if maxTries == 1 && r.Chance(70) {
+				maxTries = 2
+			}
+			kind = string("ap"[(i/32)%2])
+			sub := (i / 8) % 4
+			plans = nil
+			for a := 0; a < maxTries; a++ {
+				f := strings.Split(c01GenPlan(r, nr, faulty), "/")
+				rcs, brc := []byte(f[1]), []byte(f[3])
+				if a == 0 && sub != 3 {
+					f[0], f[2], f[4] = "o", "o", "o"
+					for j := range rcs {
+						rcs[j], brc[j] = 'o', 'o'
+					}
+					fail := "tpu"[r.Intn(3)]
+					switch {
+					case sub == 0 && kind == "a":
+						f[2] = string(fail)
+					case sub == 0:
+						for j := range brc {
+							brc[j] = "tpu"[r.Intn(3)]
+						}
+					case kind == "a":
+						f[4] = string(fail)
+					case sub == 1:
+						brc[0] = fail // the repeated address fails, the others do not
+					default:
+						for j := range brc {
+							if rc[j] != base[0] {
+								brc[j] = "tpu"[r.Intn(3)]
+							}
+						}
+					}
+				}
+				first := map[int]int{}
+				for j, x := range rc {
+					if k, seen := first[x]; seen {
+						rcs[j], brc[j] = rcs[k], brc[k]
+					} else {
+						first[x] = j
+					}
+				}
+				f[1], f[3] = string(rcs), string(brc)
+				plans = append(plans, strings.Join(f, "/"))
+			}
+		}
+		// every 8th case (mode 7): a per-recipient target files failures under addresses that are NOT in
+		// the envelope (unrelated / the converted spelling of a recipient / its other-case form) beside
+		// one real failure; the other recipients are delivered in that attempt
+		foreignTok := ""
+		if mode == 7 && !spellings && (nr >= 2 || !asciiLocal) {
+			kind = "p"
+			if nr < 2 {
+				nr = 2
+				rc = perm[:2]
+				rs = []string{strconv.Itoa(rc[0]), strconv.Itoa(rc[1])}
+				plans = nil
+				for a := 0; a < maxTries; a++ {
+					plans = append(plans, c01GenPlan(r, nr, faulty))
+				}
+			}
+			f := strings.Split(plans[0], "/")
+			rcs, brc := []byte(strings.Repeat("o", nr)), []byte(strings.Repeat("o", nr))
+			j := r.Intn(nr)
+			if r.Chance(50) {
+				rcs[j] = "tpu"[r.Intn(3)]
+			} else {
+				brc[j] = "tpu"[r.Intn(3)]
+			}
+			plans[0] = strings.Join([]string{"o", string(rcs), "o", string(brc), f[4]}, "/")
+			var fs []string
+			for n := 0; n < nr-1; n++ {
+				fs = append(fs, "0"+string("xck"[(i/8+n)%3])+string("tpu"[r.Intn(3)]))
+			}
+			foreignTok = " F=" + strings.Join(fs, ".")
+		} else if kind == "p" && r.Chance(10) {
+			foreignTok = fmt.Sprintf(" F=%d%c%c", r.Intn(maxTries), "xck"[r.Intn(3)], "tpu"[r.Intn(3)])
+		}
+		// the header of the queued message: every 8th case (mode 4) walks the table while somebody fails
+		// for good in the first attempt of a message with a return path; 30 % of the others get a random one
+		headerTok := ""
+		if mode == 4 {
+			headerTok = fmt.Sprintf(" H=%d", 1+(i/8)%(len(c01Headers)-1))
+			if !strings.Contains(plans[0], "p") {
+				f := strings.Split(plans[0], "/")
+				rcs := []byte(f[1])
+				rcs[0] = 'p'
+				for j, x := range rc {
+					if x == rc[0] {
+						rcs[j] = 'p'
+					}
+				}
+				f[0], f[1] = "o", string(rcs)
+				plans[0] = strings.Join(f, "/")
+			}
+		} else if r.Chance(30) {
+			headerTok = fmt.Sprintf(" H=%d", r.Intn(len(c01Headers)))
 		}
 		// restarts
 		ext := ""
@@ -1436,7 +1694,7 @@ func TestVerifC01(t *testing.T) {
 			}
 		}
 		// envelope: SMTPUTF8 or not, shape of the return path, addresses the client named
-		if mode == 6 || asciiLocal || r.Chance(20) {
+		if !dupMode && (mode == 6 || asciiLocal || r.Chance(20)) {
 			utf8 := "1"
 			if asciiLocal && mode != 6 && r.Chance(50) {
 				utf8 = "0"
@@ -1529,6 +1787,12 @@ func TestVerifC01(t *testing.T) {
 				ext = " R=-"
 			}
 			ext += " X=" + c01GenForms(r, i/8)
+		}
+		if foreignTok+headerTok != "" {
+			if ext == "" {
+				ext = " R=-"
+			}
+			ext += headerTok + foreignTok
 		}
 		op := fmt.Sprintf("C01 run %d %s %s %s %s%s", maxTries, kind, dsn, strings.Join(rs, ","), strings.Join(plans, ";"), ext)
 		jobs <- job{op, r.Next()}
